@@ -131,6 +131,35 @@ func loadProg(dir string, cs *ContractSet) (*Prog, error) {
 			p.Funcs[name] = fn
 		}
 	}
+	// methods of generic types that are never instantiated inside the module (e.g.
+	// fsim.DownloadContents[T]) are not reachable from AllFunctions: add the
+	// generic origins from the type information
+	for _, pk := range pkgs {
+		if pk.Module == nil || !pk.Module.Main || pk.Types == nil {
+			continue
+		}
+		sc := pk.Types.Scope()
+		for _, nm := range sc.Names() {
+			tn, ok := sc.Lookup(nm).(*types.TypeName)
+			if !ok {
+				continue
+			}
+			named, ok := types.Unalias(tn.Type()).(*types.Named)
+			if !ok {
+				continue
+			}
+			for i := 0; i < named.NumMethods(); i++ {
+				fn := prog.FuncValue(named.Method(i).Origin())
+				if fn == nil || len(fn.Blocks) == 0 {
+					continue
+				}
+				name := p.funcName(fn)
+				if _, dup := p.Funcs[name]; !dup {
+					p.Funcs[name] = fn
+				}
+			}
+		}
+	}
 	// contract files next to the code
 	seen := map[string]bool{}
 	for _, pk := range pkgs {
